@@ -6,6 +6,8 @@ CONSTANTS
   PidOps = {"$p1", "$p2", "$p3", "9999"}
   Sigs = {"KILL", "HUP", "TSTP", "STOP", "CONT"}
   JobsOpts = {"", "-l", "-p"}
+  KillLNums = {}
+  FgSlots = {}
   StartWith = "p3"
 VIEW view
 INVARIANT TableConsistent
